@@ -33,6 +33,7 @@ def run(tier, out):
     try:
         from checks import tablecommon
         cov_table = tablecommon.run_table_part(PID, out, tier, "C12") or {}
+        cov_table.pop("tree_trace", None)
     except ImportError:
         cov_table = {"note": "table-level part not available"}
     tp = os.path.join(wd, "trace.ndjson")
